@@ -829,6 +829,11 @@ class ExcludeRegionState(object):  # pylint: disable=too-many-instance-attribute
             "G92 E{e}".format(e=self.position.E_AXIS.nativeToLogical())
         )
 
+        # The re-positioning moves below use absolute coordinates
+        relativeMode = not self.position.X_AXIS.absoluteMode
+        if (relativeMode):
+            returnCommands.append("G90")
+
         newZ = self.position.Z_AXIS.nativeToLogical()
         # Compare heights in native units (the logical units may have changed while excluding)
         nativeNewZ = self.position.Z_AXIS.current
@@ -857,6 +862,10 @@ class ExcludeRegionState(object):  # pylint: disable=too-many-instance-attribute
             # Move Z axis _down_ to new position
             # (hopefully we avoided hitting any part we may pass over)
             returnCommands.append(moveZcmd)
+
+        if (relativeMode):
+            # Restore the relative positioning mode selected by the file
+            returnCommands.append("G91")
 
         self._logger.info(
             "STOP excluding: cmd=%s, returnCommands=%s, numCommands=%s, numExcludedCommands=%s, " +
